@@ -7,7 +7,7 @@ from vlib import Result, enc_list, f2b, Toks, close
 
 PROP = 'C07'
 META = {
-    'level_text': 'Lean 4 theorems for every grid size, distribution, growth field, nucleation term and step (budget by telescoping, one-sided ends, upwind adjacent-class exchange, unique nucleation class, face-wise limiter, step-limit formula, non-negativity under the limit) about an executable model of getdXdtEuler/correctdXdtEuler/getDTEuler; the model is tied to PopulationBalance.py by differential correspondence on every run, and the property predicate is also evaluated on the implementation outputs against an independent scalar reference.',
+    'level_text': 'Lean 4 theorems for every grid size, distribution, growth field, nucleation term and step (budget by telescoping, one-sided ends, upwind adjacent-class exchange, unique nucleation class, face-wise limiter and class-wise total-outflow limiter, UNCONDITIONAL non-negativity of the corrected Euler update, step-limit formula, non-negativity under the limit) about an executable model of getdXdtEuler/correctdXdtEuler/getDTEuler; the model is tied to PopulationBalance.py by differential correspondence on every run, and the property predicate is also evaluated on the implementation outputs against an independent scalar reference.',
     'level_note': 'Trusted: Lean kernel + Mathlib, axioms propext/Classical.choice/Quot.sound; the hand model KawinV.PBM equals the NumPy code only as far as this run compared them (thousands of structured cases); exact-field arithmetic instead of IEEE doubles; NaN/inf growth rates outside the statement.',
     'technique': 'Lean 4 proof over ordered fields + model/implementation differential correspondence',
     'design_ref': 'DESIGN.md section 6, C07',
@@ -28,19 +28,23 @@ def gen_case(rng):
     cmin = 10 ** rng.uniform(-10.5, -8)
     cmax = cmin * rng.choice([10, 10, 30, 100])
     dist = rng.choice(['empty', 'single', 'sparse', 'lognormal', 'huge-range', 'uniform', 'ones'])
-    gro = rng.choice(['1/R', '1/R', 'signchange', 'zeros', 'allneg', 'allpos', 'random', 'some-zero'])
+    gro = rng.choice(['1/R', '1/R', 'signchange', 'zeros', 'allneg', 'allpos', 'random', 'some-zero',
+                      'split-in-populated', 'split-in-populated', '1/R-in-populated'])
     nuc = rng.choice(['inside', 'inside', 'inside', 'on-boundary', 'below', 'above', 'zero-rate'])
     hist = rng.choice(['fresh', 'fresh', 'fresh', 'remesh', 'add', 'revert', 'recorded', 'recorded-load'])
     return dict(n=n, cmin=cmin, cmax=cmax, dist=dist, gro=gro, nuc=nuc, hist=hist,
                 s=rng.getrandbits(32), dtmul=10 ** rng.uniform(-3, 1), ratio=rng.choice([0.4, 0.4, 0.5, 0.25, 0.1]),
-                maxdiss=rng.choice([1e-3, 0.01, 0.1, 0.0]))
+                maxdiss=rng.choice([1e-3, 0.01, 0.1, 0.0]),
+                # 'drain': dt is a multiple of the time in which the fastest two-sided class would empty (classes below the
+                # dissolution index / caller-chosen dt are not covered by getDTEuler), so the class-wise third pass is active
+                dtkind=rng.choice(['limit', 'limit', 'drain']), dmult=10 ** rng.uniform(-0.5, 2.5))
 
 
 def build(case):
     vlib.use_repo()
     from kawin.precipitation.PopulationBalance import PopulationBalanceModel
     r = np.random.default_rng(case['s'])
-    n = case['n']
+    n = case.setdefault('n0', case['n'])     # requested number of classes (case['n'] becomes the number after the grid history)
     pbm = PopulationBalanceModel(cMin=case['cmin'], cMax=case['cmax'], bins=n, minBins=max(1, n // 2), maxBins=3 * n + 40)
     # the transport functions must work on whatever grid the object currently holds: reach the grid through public
     # grid operations as well (re-mesh, extension, backup/revert, restoring a recorded distribution), not only by construction
@@ -91,8 +95,17 @@ def build(case):
     b = pbm.PSDbounds
     g = case['gro']
     rc = b[0] + r.uniform(-0.2, 1.2) * (b[-1] - b[0])
+    pop = np.nonzero(psd > 0)[0]
+    m = int(pop[r.integers(0, len(pop))]) if len(pop) else int(r.integers(0, n))   # a populated class when there is one
     if g == '1/R':
         flux = 1e-18 * (1 / max(rc, 1e-12) - 1 / b) / b * 1e9
+    elif g == '1/R-in-populated':
+        # physical law with the critical radius strictly inside class m: growth rate changes sign inside a populated class
+        rc = b[m] + r.uniform(0.05, 0.95) * (b[m + 1] - b[m])
+        flux = 1e-18 * (1 / rc - 1 / b) / b * 10 ** r.uniform(7, 11)
+    elif g == 'split-in-populated':
+        # faces up to m shrink, faces above m grow: class m drains through both faces
+        flux = np.where(np.arange(n + 1) <= m, -1.0, 1.0) * 10 ** r.uniform(-14, -8, n + 1)
     elif g == 'signchange':
         flux = np.where(r.random(n + 1) < 0.5, -1.0, 1.0) * 10 ** r.uniform(-14, -8, n + 1)
     elif g == 'zeros':
@@ -132,6 +145,34 @@ def ref_netflux(b, flux, psd):
     return nf
 
 
+def ref_corrected(nf, psd, dt):
+    """independent scalar form of correctdXdtEuler's face fluxes: the two face-wise limits, then the limit on the
+    TOTAL outflow of every class (outflow faces of a class scaled by psd/(outflow*dt)).  Returns the corrected
+    fluxes, the fluxes after the two face-wise passes alone, and the classes on which the third pass acted."""
+    n = len(psd)
+    g = [float(v) for v in nf]
+    for i in range(n):                      # left faces
+        if g[i] * dt < -psd[i]:
+            g[i] = -psd[i] / dt
+    for i in range(n):                      # right faces
+        if g[i + 1] * dt > psd[i]:
+            g[i + 1] = psd[i] / dt
+    face = list(g)
+    active = []
+    for i in range(n):                      # every face is an outflow face of at most one class: order is irrelevant
+        ol = -face[i] if face[i] < 0 else 0.0
+        orr = face[i + 1] if face[i + 1] > 0 else 0.0
+        out = ol + orr
+        if out * dt > psd[i]:
+            sc = psd[i] / (out * dt)
+            if ol > 0:
+                g[i] = face[i] * sc
+            if orr > 0:
+                g[i + 1] = face[i + 1] * sc
+            active.append((i, ol > 0 and orr > 0))
+    return g, face, active
+
+
 def containing_class(b, r):
     n = len(b) - 1
     for i in range(n):
@@ -142,7 +183,8 @@ def containing_class(b, r):
 
 def corr(ctx, ncases=None, oracle_only=False):
     res = Result()
-    res.rule = ('random PBM grids (1-400 classes) x distribution kind x growth-field kind x nucleation radius position x dt; '
+    res.rule = ('random PBM grids (1-400 classes) x distribution kind x growth-field kind (incl. sign change of the growth rate inside a populated class) '
+                'x nucleation radius position x dt (multiples of the step limit, and multiples of the time in which a two-sided class empties: third pass active); '
                 'non-trivial = populated distribution and non-zero growth field; distinct = (kind tuple, n, seed)')
     N = ncases or ctx.n(1500, 40000)
     cases, impl, lines, extra = [], [], [], []
@@ -166,6 +208,11 @@ def corr(ctx, ncases=None, oracle_only=False):
             currDT = 1.0e5
             dtlim = float(pbm.getDTEuler(currDT, flux, dissIdx, c['ratio']))
             dt = dtlim * c['dtmul'] if c['dtmul'] < 5 else dtlim * 10
+            if c.get('dtkind') == 'drain':
+                outl = np.maximum(-nf[:-1], 0); outr = np.maximum(nf[1:], 0)
+                two = (outl > 0) & (outr > 0) & (psd > 0)
+                if two.any():
+                    dt = float(c['dmult'] * np.min(psd[two] / (outl[two] + outr[two])))
             pbm.getdXdtEuler(flux, nucRate, nucRad, psd)
             dc = pbm.correctdXdtEuler(dt, flux, nucRate, nucRad, psd)
             nfc = pbm._netFlux.copy()
@@ -281,6 +328,36 @@ def corr(ctx, ncases=None, oracle_only=False):
                 res.count('nuc-outside-above')
                 if recv != [n - 1] and recv != []:
                     res.violate('nuc-above-grid', 'radius above the grid: nuclei entered class %s, nearest is the last' % recv, desc, recv, [n - 1])
+        # corrected fluxes: scalar reference of the three passes, and what the passes must achieve
+        rcf, rface, active = ref_corrected(rnf, [float(v) for v in psd], dt)
+        signchange = any(flux[i] < 0 and flux[i + 1] > 0 and psd[i] > 0 for i in range(n))
+        if signchange:
+            res.count('sign-change-inside-populated-class')
+        if active:
+            res.count('third-pass-active')
+            if any(two for _, two in active):
+                res.count('third-pass-active:class-drained-through-both-faces')
+        old = [psd[i] + dt * (rface[i] - rface[i + 1]) for i in range(n)]
+        if any(old[i] < -1e-6 * psd[i] - 1e-300 for i in range(n)):
+            res.count('face-wise-passes-alone-would-go-negative')
+        for j in range(n + 1):
+            if not close(nfc[j], rcf[j], 1e-9, 1e-300):
+                res.violate('corrected-flux-not-reference', 'corrected flux of face %d is not the face-wise + total-outflow limited flux' % j,
+                            desc, float(nfc[j]), rcf[j]); break
+        for j in range(n + 1):
+            if nfc[j] * nf[j] < 0 or abs(nfc[j]) > abs(nf[j]) * (1 + 1e-12):
+                res.violate('correction-not-a-limiter', 'the correction reversed or increased the flux of face %d' % j, desc, float(nfc[j]), float(nf[j])); break
+        newc = psd + dt * np.asarray(dc)
+        for i in range(n):
+            # (b): unconditional -- every class of every generated case, whatever dt and the dissolution index
+            if newc[i] < -1e-9 * psd[i] - 1e-300:
+                res.violate('negative-after-correction', 'class %d negative after an Euler step with the CORRECTED rate of change '
+                            '(holds %r, left face %r, right face %r per dt)' % (i, float(psd[i]), float(nfc[i] * dt), float(nfc[i + 1] * dt)),
+                            desc, float(newc[i]), 0.0); break
+        for i in range(n):
+            out = max(-nfc[i], 0.0) + max(nfc[i + 1], 0.0)
+            if out * dt > psd[i] * (1 + 1e-9) + 1e-300:
+                res.violate('total-outflow', 'after correction class %d loses through both faces more than it holds' % i, desc, float(out * dt), float(psd[i])); break
         # limiter
         tol = 1e-9
         for i in range(n):
@@ -313,6 +390,9 @@ def search(ctx, broken):
 def replay(ctx, entry):
     c = entry['violation']['case']
     case = {k: c[k] for k in ('n', 'cmin', 'cmax', 'dist', 'gro', 'nuc', 's', 'dtmul', 'ratio', 'maxdiss')}
+    for k, dflt in (('hist', 'fresh'), ('dtkind', 'limit'), ('dmult', 1.0)):
+        case[k] = c.get(k, dflt)
+    case['n'] = c.get('n0', c['n'])
     class R:  # replays exactly this case
         def __init__(s): pass
     import random
